@@ -30,7 +30,8 @@ class C06(Spec):
     pid = "C06"
     lean_module = "NunVerif.Props.C06History"
     search_cap = 4000
-    theorems = ["Nun.C06_le64_roundtrip", "Nun.C06_version_roundtrip", "Nun.C06_key_record_size", "Nun.C06_value_record_size",
+    theorems = ["Nun.C06_key_record_is_generated", "Nun.C06_value_record_is_generated", "Nun.C06_key_writer_layout", "Nun.C06_value_writer_layout", "Nun.C06_value_status_written", "Nun.C06_disk_constants",
+                "Nun.C06_key_disk_size_formula", "Nun.C06_update_key_offsets", "Nun.C06_loader_read_order", "Nun.C06_le64_roundtrip", "Nun.C06_version_roundtrip", "Nun.C06_key_record_size", "Nun.C06_value_record_size",
                 "Nun.C06_snapshot_keeps_memory", "Nun.snapshotDb_sameData",
                 "Nun.C06_reclaim_roundtrip", "Nun.snapshotDb_reclaim_files", "Nun.loadLoop_encFiles",
                 "Nun.C06_incremental_roundtrip", "Nun.snapFold_inc", "Nun.loadLoop_recs", "Nun.pwrite_record",
